@@ -12,6 +12,7 @@ pub mod c14;
 pub mod c15;
 pub mod c16;
 pub mod c17;
+pub mod layers;
 
 pub fn gen(prop: &str, thorough: bool, seed: u64, out: &mut Vec<String>) {
     let mut rng = crate::rng::Rng::new(seed);
